@@ -210,10 +210,12 @@ def argsets(spec):
     return out
 
 
-def rule_machine(P, config):
+def rule_machine(P, config, only=None):
     r = Rule("C02-machine", "K6/K5", "every transition function equals the reference model on the whole flag domain", floor=1500)
     M = Machine(P)
     for name, (model, spec) in MODEL.items():
+        if only is not None and name not in only:
+            continue
         if not P.has(name):
             r.brk("anchor function %s not found" % name)
             continue
